@@ -4,6 +4,7 @@ import PvlModel.Lemmas.ParseSpec
 import PvlModel.Lemmas.ParserCount2
 import PvlModel.Lemmas.SaneAll
 import PvlModel.Lemmas.ParserCount3
+import PvlModel.Lemmas.ParserDead
 import PvlModel.Gen.Tables
 
 /-!
@@ -354,6 +355,53 @@ theorem C05_blocks_accounted_any (g : Grammar) (hg : g ∈ [Gen.pvl, Gen.odl, Ge
   constructor
   · simpa [cntG] using h1
   · simpa [cntG] using h2
+
+
+
+theorem parseWith_exhausted (g : Grammar) (d : Dec) (kind : ParserKind) (prior : List Int) (s : Str) :
+    (parseWith g d kind prior s).exhausted = (parseRun g d kind s).2.gen.dead := by
+  unfold parseWith parseRun
+  rfl
+
+/-- after `parse()`, a finished lexer has nothing left to deliver -/
+theorem parseRun_de (g : Grammar) (d : Dec) (kind : ParserKind) (text : Str) (m : Items)
+    (h : (parseRun g d kind text).1 = .ok m) : DE (parseRun g d kind text).2 := by
+  revert h
+  unfold parseRun
+  simp only
+  generalize (if kind == ParserKind.omni then omniPrepass text else text) = doc
+  generalize lexAll g d doc = lx
+  obtain ⟨toks, tail⟩ := lx
+  simp only
+  have hs0 := triple_elim _ _ _ _
+    (moduleLoop_de ⟨g, d, kind, doc, tail⟩ (fuelFor (toks.length + 2)) [])
+    ⟨⟨toks, none, none, false⟩, [], [], none, false⟩ (by simp [DE])
+  revert hs0
+  generalize (moduleLoop ⟨g, d, kind, doc, tail⟩ [] (fuelFor (toks.length + 2))).run.run
+    ⟨⟨toks, none, none, false⟩, [], [], none, false⟩ = res
+  obtain ⟨r, st'⟩ := res
+  intro hs0 h
+  have h' : r = .ok m := h
+  subst h'
+  exact hs0
+
+/-- **C05, a label read to its end is balanced**: for every loader (any parser class, the generated tables) and
+    every text — if `parse()` returns a module and the lexer ran to the end of the text (no END statement cut the
+    reading short), then the text holds exactly as many begin keywords of blocks as the module has blocks, and
+    exactly as many end keywords.  A text with a block that is never closed, or closed twice, or an end keyword
+    without a block is therefore never loaded as a module. -/
+theorem C05_balanced_when_exhausted (g : Grammar) (hg : g ∈ [Gen.pvl, Gen.odl, Gen.pds, Gen.isis, Gen.omni])
+    (dk : DecKind) (kind : ParserKind) (prior : List Int) (text : Str) (m : Items)
+    (h : (parseWith g ⟨g, dk⟩ kind prior text).outcome = .ok m)
+    (hex : (parseWith g ⟨g, dk⟩ kind prior text).exhausted = true) :
+    ((lexAll g ⟨g, dk⟩ (docOf kind text)).1.filter (fun t => isBt (cfgOfAny g ⟨g, dk⟩ kind text) t.text)).length = blocksI m ∧
+    ((lexAll g ⟨g, dk⟩ (docOf kind text)).1.filter (fun t => isEt (cfgOfAny g ⟨g, dk⟩ kind text) t.text)).length = blocksI m := by
+  rw [parseWith_outcome] at h
+  rw [parseWith_exhausted] at hex
+  obtain ⟨h1, h2⟩ := C05_blocks_accounted_any g hg dk kind text m h
+  obtain ⟨hp, hq⟩ := parseRun_de g ⟨g, dk⟩ kind text m h hex
+  simp only [cntG, hp, hq, List.filter_nil, List.length_nil, Nat.zero_add] at h1 h2
+  exact ⟨h1.symm, h2.symm⟩
 
 
 end Pvl
